@@ -18,7 +18,7 @@ LEAN_TARGETS = ['CfVerif.Props.C18']
 PROPS_MODULES = ['CfVerif.Props.C18']
 DRIVER = 'Driver/C18.lean'
 REQUIRED_THEOREMS = ['CfVerif.C18.router_survives_rejected_packets', 'CfVerif.C18.unwire_wire', 'CfVerif.C18.version_rejected', 'CfVerif.C18.reassembly',
-                     'CfVerif.C18.router_fifo_per_function', 'CfVerif.C18.crtp_uplink_id', 'CfVerif.C18.crtp_downlink_id']
+                     'CfVerif.C18.router_fifo_per_function', 'CfVerif.C18.links_isolated', 'CfVerif.C18.crtp_uplink_id', 'CfVerif.C18.crtp_downlink_id']
 TRUSTED = ['harness/corr/c18.py extractor + correspondence', 'socket.recv(n) modelled as: returns 1..n bytes from the head of the stream',
            "native 'H' = little-endian u16", 'queue.Queue is FIFO']
 ASSUMPTIONS = ['EOF on the socket (recv returning b"") is outside the model: the real read loop spins',
@@ -95,6 +95,26 @@ def extract(ctx):
     g.strings('routerQueueReads', sorted({ast.unparse(n) for n in ast.walk(loops[0]) if isinstance(n, (ast.Subscript, ast.Call, ast.Compare)) and '_rxQueues' in ast.unparse(n) and 'put' not in ast.unparse(n)}))
     g.raw('def routerHandlerLeavesLoop : Bool := ' + ('true' if any(isinstance(n, (ast.Break, ast.Return, ast.Raise)) for b in h.body for n in ast.walk(b)) else 'false'))
     g.raw('def routerTryInsideLoop : Bool := ' + ('true' if any(isinstance(n, ast.While) and tries[0] in n.body for n in ast.walk(rrun)) else 'false'))
+    # the router OBJECT's state: parameters of __init__ (with defaults), where the queue table comes from, class-level
+    # attributes, and how the library constructs routers (a table handed in / shared would join two links)
+    rinit = X.find(r, '__init__')
+    a = rinit.args
+    pos = a.posonlyargs + a.args
+    defaults = [None] * (len(pos) - len(a.defaults)) + list(a.defaults)
+    params = [x.arg + ('=' + ast.unparse(d) if d is not None else '') for x, d in zip(pos, defaults)]
+    params += ['*' + a.vararg.arg] if a.vararg else []
+    params += [x.arg + ('=' + ast.unparse(d) if d is not None else '') for x, d in zip(a.kwonlyargs, a.kw_defaults)]
+    params += ['**' + a.kwarg.arg] if a.kwarg else []
+    g.strings('routerInitParams', params)
+    g.strings('routerInitQueues', [ast.unparse(n) for fn in r.body if isinstance(fn, ast.FunctionDef) for n in ast.walk(fn)
+                                   if isinstance(n, (ast.Assign, ast.AugAssign, ast.AnnAssign)) and '_rxQueues' in
+                                   ' '.join(ast.unparse(t) for t in (n.targets if isinstance(n, ast.Assign) else [n.target]))
+                                   and not any(isinstance(t, ast.Subscript) for t in (n.targets if isinstance(n, ast.Assign) else [n.target]))])
+    g.strings('routerClassLevel', [ast.unparse(n) for n in r.body if not isinstance(n, (ast.FunctionDef, ast.Expr))])
+    ctor = []
+    for f in ('cflib/cpx/__init__.py', 'cflib/cpx/transports.py', 'cflib/crtp/tcpdriver.py'):
+        ctor += [ast.unparse(n) for n in ast.walk(X.parse(f)) if isinstance(n, ast.Call) and ast.unparse(n.func).split('.')[-1] == 'CPXRouter']
+    g.strings('routerCtorCalls', ctor)
     # socket transport: length prefix format/argument, the recv() argument and the loop condition
     t = X.find(X.parse('cflib/cpx/transports.py'), 'SocketTransport')
     sc = X.struct_calls(X.find(t, 'writePacket'))
@@ -328,9 +348,7 @@ def real_router(script):
     import contextlib
     import io
     cpx, _ = _cpx()
-    r = cpx.CPXRouter.__new__(cpx.CPXRouter)
-    r._rxQueues = {}
-    r._connected = True
+    r = cpx.CPXRouter(None)       # the real constructor: the queue table is whatever it creates
 
     def do_reg(fn):
         if fn in r._rxQueues:
@@ -370,6 +388,75 @@ def real_router(script):
     return 'ok ' + (' '.join(out) if out else '-') + (' DIED' if died else '')
 
 
+class OnePacketTransport:
+    """hands the router loop exactly one packet, then ends the loop"""
+
+    def __init__(self, router, pkt):
+        self.router, self.pkt = router, pkt
+
+    def readPacket(self):
+        self.router._connected = False
+        return self.pkt
+
+
+def real_world(n, ops):
+    """n CPX links alive in one process, each with its own REAL CPXRouter (real constructor, all built up front);
+    ops: list of (link, ('reg', fn) | ('pkt', fn, tag)) in global order.  A packet of link j is routed by link j's
+    router loop (one loop pass per packet; the continuous loop is covered by real_router)."""
+    import contextlib
+    import io
+    cpx, _ = _cpx()
+    routers = [cpx.CPXRouter(None) for _ in range(n)]
+    died = False
+    with contextlib.redirect_stdout(io.StringIO()):
+        for link, op in ops:
+            r = routers[link]
+            if op[0] == 'reg':
+                if op[1] not in r._rxQueues:
+                    try:
+                        r.receivePacket(cpx.CPXFunction(op[1]), timeout=0.0)
+                    except queue.Empty:
+                        pass
+            else:
+                r._connected = True
+                r._transport = OnePacketTransport(r, cpx.CPXPacket(function=cpx.CPXFunction(op[1]), destination=cpx.CPXTarget.HOST,
+                                                                   data=bytearray([op[2]])))
+                try:
+                    r.run()
+                except BaseException:
+                    died = True
+    outs = []
+    for r in routers:
+        out = []
+        for fnv in sorted(r._rxQueues):
+            items = []
+            while True:
+                try:
+                    items.append(str(r.receivePacket(cpx.CPXFunction(fnv), timeout=0.0).data[0]))
+                except queue.Empty:
+                    break
+            out.append('%d:%s' % (fnv, ','.join(items) if items else '-'))
+        outs.append(' '.join(out) if out else '-')
+    return 'ok ' + ' | '.join(outs) + (' DIED' if died else '')
+
+
+def gen_world(rng):
+    n = rng.choice([2, 2, 3])
+    fns = rng.sample(FUNCS, rng.choice([1, 2, 3]))      # few functions: the links listen on the SAME ones
+    ops = []
+    for _ in range(rng.randrange(1, 18)):
+        link = rng.randrange(n)
+        if rng.random() < 0.35:
+            ops.append((link, ('reg', rng.choice(fns))))
+        else:
+            ops.append((link, ('pkt', rng.choice(fns), rng.randrange(256))))
+    return n, ops
+
+
+def world_line(n, ops):
+    return 'world %d %s' % (n, ','.join(('%dr%d' % (l, o[1])) if o[0] == 'reg' else ('%dp%d:%d' % (l, o[1], o[2])) for l, o in ops) or '-')
+
+
 class StreamSocket(FakeSocket):
     """FakeSocket that ends the router's loop cleanly when the stream is exhausted: it clears the router's
     `_connected` flag and the transport's socket, so `_readData` returns short and the loop condition stops the thread."""
@@ -393,9 +480,7 @@ def real_router_stream(regs, chunks):
     import contextlib
     import io
     cpx, tr = _cpx()
-    r = cpx.CPXRouter.__new__(cpx.CPXRouter)
-    r._rxQueues = {}
-    r._connected = True
+    r = cpx.CPXRouter(None)
     sock = StreamSocket(chunks, r, None)
     t = make_transport([sock])
     sock.transport = t
@@ -583,6 +668,11 @@ def gen_cases(ctx):
                 script.append(('pkt', rng.choice(FUNCS), rng.randrange(256)))
         line = 'router ' + (','.join('r%d' % o[1] if o[0] == 'reg' else 'p%d:%d' % (o[1], o[2]) for o in script) or '-')
         cases.append(('router', line, lambda s=script: real_router(s), {'op': 'router', 'script': script}, ('router', tuple(script))))
+    # several links in one process, every router built by the real constructor
+    for k in range(400 if thorough else 120):
+        n, ops = gen_world(rng)
+        cases.append(('world', world_line(n, ops), lambda n_=n, o=ops: real_world(n_, o), {'op': 'world', 'links': n, 'ops': ops},
+                      ('world', n, tuple(ops))))
     # router thread on byte streams with rejected packets in between good ones
     for k in range(600 if thorough else 150):
         regs = sorted({rng.choice(FUNCS) for _ in range(rng.randrange(0, 4))})
@@ -734,6 +824,21 @@ def search(ctx):
         got = real_router(script)
         if got != want:
             ctx.witness('router', 'router queue contents differ from per-function arrival order', {'script': script}, got=got, want=want)
+    # (4a) several links in one process: each link's receivers get exactly that link's packets, per function in order
+    for trial in range(100 if ctx.tier == 'quick' else 600):
+        n, ops = gen_world(rng)
+        expect = [dict() for _ in range(n)]
+        for link, op in ops:
+            if op[0] == 'reg':
+                expect[link].setdefault(op[1], [])
+            elif op[1] in expect[link]:
+                expect[link][op[1]].append(op[2])
+        want = 'ok ' + ' | '.join((' '.join('%d:%s' % (f, ','.join(map(str, e[f])) or '-') for f in sorted(e)) or '-') for e in expect)
+        got = real_world(n, ops)
+        if got != want:
+            ctx.witness('links-not-isolated', 'with several CPX links alive in one process a link\'s receivers are not handed exactly that link\'s packets',
+                        {'links': n, 'ops': ops}, got=got, want=want)
+            break
     # (4b) a rejected packet (bad version / unknown target or function) neither kills the router nor stops later packets
     for trial in range(80):
         good = [(rng.choice(FUNCS), rng.randrange(256)) for _ in range(rng.randrange(2, 6))]
